@@ -400,6 +400,7 @@ impl Beatmap {
                 &control_points,
                 &last_props,
                 group.timing.is_some(),
+                self.mode,
             );
 
             if let Some(timing) = group.timing {
@@ -512,6 +513,7 @@ impl ControlPointProperties {
         control_points: &ControlPoints,
         last_props: &Self,
         update_sample_bank: bool,
+        mode: GameMode,
     ) -> Self {
         let timing = control_points.timing_point_at(time);
         let difficulty = control_points.difficulty_point_at(time);
@@ -536,9 +538,15 @@ impl ControlPointProperties {
         }
 
         Self {
-            slider_velocity: difficulty.map_or(DifficultyPoint::DEFAULT_SLIDER_VELOCITY, |point| {
-                point.slider_velocity
-            }),
+            // In taiko and mania, the value is read as scroll speed which has
+            // a wider range than the slider velocity.
+            slider_velocity: if matches!(mode, GameMode::Taiko | GameMode::Mania) {
+                effect.map_or(EffectPoint::DEFAULT_SCROLL_SPEED, |point| point.scroll_speed)
+            } else {
+                difficulty.map_or(DifficultyPoint::DEFAULT_SLIDER_VELOCITY, |point| {
+                    point.slider_velocity
+                })
+            },
             timing_signature: timing
                 .map_or(TimingPoint::DEFAULT_TIME_SIGNATURE, |point| {
                     point.time_signature
